@@ -111,6 +111,15 @@ def shard_main(inp, outp):
     from vmon.ctx import Ctx
 
     spec = json.load(open(inp))
+    # a changed library may ask for absurd amounts of memory (a length field taken for a byte count): let such a request fail
+    # inside the call that makes it (MemoryError, observed by the monitor) instead of taking the machine down
+    try:
+        import resource
+
+        lim = int(os.environ.get("VERIF_SHARD_AS_LIMIT", 8 << 30))
+        resource.setrlimit(resource.RLIMIT_AS, (lim, lim))
+    except (ImportError, ValueError, OSError):
+        pass
     repo.activate()
     mod = load_prop(spec["prop"])
     ctx = Ctx(spec["prop"], spec["tier"], spec["seed"], spec["shard"])
